@@ -200,7 +200,7 @@ def main():
         engines=[dict(name="coq-model+correspondence", path="vp/check.py", serves_properties=claimed,
                       kind_free_text="Coq 8.16 development in coq/ (model, spec, proofs, property statements) + Rust harness + Python differential driver")],
         checks=checks,
-        notes="See DESIGN.md. Properties are added to `checks` as their model, theorems and correspondence land; the rest are listed under not_applicable only until then.",
+        notes="See DESIGN.md (sections 12-14 describe what is built). All 20 properties are claimed; not_applicable is empty. Every check: (1) rebuilds the Coq development and re-checks every theorem of Props/<id>*.v with its Print Assumptions against an allow-list (thorough tier: coqchk as well), (2) rebuilds the Rust harness and the CLI binary from /repo's working tree, (3) runs the Gallina model inside coqc (vm_compute) and the implementation on the same generated inputs and call sequences and compares, (4) evaluates the property's own predicate with an independent Python reference. KNOWN_FINDINGS.txt lists one known finding (K1, C13) and the fixed defects; seeded/ holds 160+ seeded defects used to drill the checks (DESIGN.md section 13).",
         not_applicable=[dict(property_id=p, reason=NOT_YET) for p in ALL if p not in claimed],
     )
     with open(os.path.join(ROOT, "MANIFEST.json"), "w") as f:
